@@ -5,5 +5,5 @@ CONSTANTS
   UnixZero <- UnixZeroDef
   MaxLimit = 6
   Deviations = {}
-INVARIANTS ExactlyOnce PageIsNextChunk AroundOK AroundFull
+INVARIANTS PagesLEquiv ExactlyOnce PageIsNextChunk AroundOK AroundFull
 CHECK_DEADLOCK FALSE
